@@ -123,7 +123,8 @@ Record var := mkVar {
   v_flags : list bool;       (* f_cvc_active of each component *)
   v_pending : list bool;     (* colvar::cvc_flags: set by set_cvc_flags, applied at the next evaluation; [] = none *)
   v_coeff : list Z;          (* componentCoeff of each component *)
-  v_exp : list nat           (* componentExp of each component (absent entries = 1): polynomial combination *)
+  v_exp : list nat;          (* componentExp of each component (absent entries = 1): polynomial combination *)
+  v_scripted : bool          (* scriptedFunction: the value is a user function of ALL component values (here: their sum) *)
 }.
 
 Record bias := mkBias {
@@ -149,7 +150,7 @@ Definition any_true (l : list bool) : bool := existsb (fun b => b) l.
 Definition update_flags (v : var) : var :=
   match v_pending v with
   | [] => v
-  | p => mkVar (v_tsf v) p (if any_true p then [] else p) (v_coeff v) (v_exp v)
+  | p => mkVar (v_tsf v) p (if any_true p then [] else p) (v_coeff v) (v_exp v) (v_scripted v)
   end.
 (* "ERROR: All CVCs are disabled" *)
 Definition flags_error (v : var) : bool :=
@@ -157,7 +158,7 @@ Definition flags_error (v : var) : bool :=
 
 (* colvar::set_cvc_flags (script command cvcflags): refused unless one flag per component *)
 Definition set_flags (v : var) (p : list bool) : var :=
-  if Nat.eqb (length p) (length (v_flags v)) then mkVar (v_tsf v) (v_flags v) p (v_coeff v) (v_exp v) else v.
+  if Nat.eqb (length p) (length (v_flags v)) then mkVar (v_tsf v) (v_flags v) p (v_coeff v) (v_exp v) (v_scripted v) else v.
 
 (* the variables as calc_colvars sees them at step t: flags of the active ones updated *)
 Definition prep_var (t : nat) (v : var) : var := if awake (v_tsf v) t then update_flags v else v.
@@ -180,7 +181,7 @@ Definition var_items (p : nat * var) : list (nat * nat) :=
   map (pair (fst p)) (seq 0 (count_true (v_flags (snd p)))).
 Definition build_items (avs : list (nat * var)) : list (nat * nat) := flat_map var_items avs.
 
-Definition flags_of (vs : list var) (v : nat) : list bool := v_flags (nth v vs (mkVar 0 [] [] [] [])).
+Definition flags_of (vs : list var) (v : nat) : list bool := v_flags (nth v vs (mkVar 0 [] [] [] [] false)).
 
 (* calc_component_smp(i) = colvars_smp[i]->calc_cvcs(colvars_smp_items[i], 1): the (variable, component) pairs it evaluates *)
 Definition item_evaluates (vs : list var) (it : nat * nat) : list (nat * nat) :=
@@ -236,7 +237,12 @@ Definition comp_item (p : nat * nat) : sitem :=
    (colvar::collect_cvc_values, scalar branch: integer_power when sup_np != 1) *)
 Definition collect_item (p : nat * var) : sitem :=
   let v := fst p in let en := enabled (v_flags (snd p)) in
-  mkItem (map (LCvc v) en) [LX v]
+  if v_scripted (snd p)
+  then (* colvar::collect_cvc_values, scripted branch: run_colvar_callback(scripted_function, sorted_cvc_values, x) where
+          sorted_cvc_values holds EVERY component, enabled or not (a disabled one contributes the value of its last evaluation) *)
+       let all := seq 0 (length (v_flags (snd p))) in
+       mkItem (map (LCvc v) all) [LX v] (fun s _ => zsum (map (fun c => s (LCvc v c)) all))
+  else mkItem (map (LCvc v) en) [LX v]
          (fun s _ => zsum (map (fun c => nth c (v_coeff (snd p)) 1 * Z.pow (s (LCvc v c)) (Z.of_nat (nth c (v_exp (snd p)) 1%nat))) en)).
 
 (* harmonic bias b: update() reads its variables' values, writes its own energy and colvar_forces.
